@@ -191,7 +191,7 @@ def _run(case, scratch):
                 fail("strict-reader-warns-on-written-file", entry, warns[:2])
         outcomes.add("round-trip")
     # foreign emitter
-    if case["layer"] in ("T", "K", "A", "V", "M") and csv_neutral(case["spec"]):
+    if case["layer"] in ("T", "K", "A", "V", "M", "N") and csv_neutral(case["spec"]):
         from odml.tools.xmlparser import XMLReader
         spec = rt.with_ids(case["spec"])
         try:
